@@ -4,6 +4,7 @@ import Dcg.Gen.GraphqlTables
 import Dcg.Proofs.GraphqlBridge
 import Dcg.Proofs.GraphqlBridgeOp
 import Dcg.Proofs.GraphqlOrder
+import Dcg.Proofs.GraphqlEnum
 /-
 C17 — the shape of a GraphQL schema is mirrored by the generated models.
 Only property theorems live here; helper lemmas are in Dcg/Proofs/Graphql.lean.
@@ -620,5 +621,63 @@ example :
       { name := "Vv".toList, kind := .union, members := ["Beta".toList] } = true := by decide
 
 end ordering
+
+/-! ### enums: member VALUES vs member NAMES
+
+`GraphQLParser.parse_enum` sends every value name through the enum field-name resolver (keywords get `_`, `mro`
+is reserved, a leading underscore gets the special prefix, `capitalise_enum_members` upper-cases, collisions are
+numbered) to obtain the member NAME; the member VALUE is written from the GraphQL name itself. The model is C09's
+`Dcg.Model.Enum.parseGraphqlEnum` (the loop both enum call sites run), tied to the real parser on every run by the
+campaign `gqlenum.values` of vlib/props/c17_enum.py. -/
+section enums
+open Dcg.Model.Names Dcg.Model.Enum Dcg.Proofs.GraphqlEnum Dcg.Proofs.EnumSites
+
+/-- FULL STRENGTH, every list of GraphQL value names, EVERY setting of the resolver options (capitalise, snake
+case, special prefix, aliases …) and of the case tables: whenever the member loop of `parse_enum` returns, the
+Enum class has exactly one member per value name and the VALUES Python reads back from the members' right-hand
+sides are the GraphQL value names themselves, verbatim and in order — whatever the resolver did to the member
+NAMES. No hypothesis on the options: the value never passes through the resolver. -/
+theorem graphql_enum_values_verbatim (E : Env) (cfg : Cfg) (names : List (List Char)) (ms : List Dcg.Model.Enum.Member)
+    (h : parseGraphqlEnum E cfg names = .ok ms) :
+    ms.length = names.length ∧
+    ms.map (fun m => evalDefault m.2) = names.map (fun n => some (.str n)) := by
+  unfold parseGraphqlEnum at h
+  refine ⟨gql_fold_length names names 0 graphqlInit ms h, ?_⟩
+  have hd := graphql_fold_defaults names names 0 graphqlInit ms h
+  have e : ms.map (fun m => evalDefault m.2) = (ms.map (·.2)).map evalDefault := by simp
+  rw [e, hd, List.map_map]
+  exact List.map_congr_left (fun n _ => gql_value_read_back n)
+
+/-- non-vacuity: the loop returns on names the resolver must rename — a keyword, `mro`, a leading underscore,
+an Enum attribute, and two names that collide after renaming — and the values are the names -/
+example :
+    parseGraphqlEnum pyEnv {} ["in".toList, "mro".toList, "_x".toList, "name".toList, "and".toList, "and_".toList] =
+      .ok [("in_".toList, .lit "'in'".toList), ("mro_".toList, .lit "'mro'".toList), ("field_x".toList, .lit "'_x'".toList),
+           ("name".toList, .lit "'name'".toList), ("and_".toList, .lit "'and'".toList), ("and__1".toList, .lit "'and_'".toList)] ∧
+    parseGraphqlEnum pyEnv { capitalise := true } ["red".toList, "RED".toList] =
+      .ok [("RED".toList, .lit "'red'".toList), ("red_1".toList, .lit "'RED'".toList)] := by
+  decide +kernel
+
+/-- the values do not depend on the naming options: two runs over the same value names under ANY two settings
+(e.g. with and without `capitalise_enum_members`) give Enum classes with the same values in the same order -/
+theorem graphql_enum_values_option_independent (E E' : Env) (cfg cfg' : Cfg) (names : List (List Char))
+    (ms ms' : List Dcg.Model.Enum.Member) (h : parseGraphqlEnum E cfg names = .ok ms) (h' : parseGraphqlEnum E' cfg' names = .ok ms') :
+    ms.map (fun m => evalDefault m.2) = ms'.map (fun m => evalDefault m.2) := by
+  rw [(graphql_enum_values_verbatim E cfg names ms h).2, (graphql_enum_values_verbatim E' cfg' names ms' h').2]
+
+/-- non-vacuity: both runs return and the member names differ -/
+example :
+    parseGraphqlEnum pyEnv {} ["asc".toList] = .ok [("asc".toList, .lit "'asc'".toList)] ∧
+    parseGraphqlEnum pyEnv { capitalise := true } ["asc".toList] = .ok [("ASC".toList, .lit "'asc'".toList)] := by
+  decide +kernel
+
+/-- the value of a member is NOT a function of its name: writing the value from the sanitised member name
+(`repr(field_name)`) would change the Enum — witness the value `in`, whose member is `in_` -/
+theorem graphql_enum_value_is_not_member_name :
+    ∃ names ms, parseGraphqlEnum pyEnv {} names = .ok ms ∧
+      ms.map (fun m => evalDefault m.2) ≠ ms.map (fun m => some (.str m.1)) :=
+  ⟨["in".toList], [("in_".toList, .lit "'in'".toList)], by decide +kernel, by decide +kernel⟩
+
+end enums
 
 end Dcg.Props.C17
